@@ -300,7 +300,7 @@ def run(rep: Report, rng, tier: str, known: dict, search: bool = False) -> None:
 def evidence(rep: Report) -> None:
     write_evidence(
         rep,
-        rule="cases = the C09 history generator (pools with shared objects, 6-12 / 10-40 operations incl. simplification and failing calls); after every operation every pool expression is compared with its initial snapshot (wire form with object identities, repr, str, value at a reference point, hash) and with a freshly built copy (== and !=), every expression returned so far with its snapshot, every persistent Partial with a fresh one; plus the copy-on-write list helpers at all indices -5..5 and Point's dictionary; non-trivial = at least 3 operations; distinct by (pool, ops)",
+        rule="cases = the C09 history generator (pools with shared objects, 6-12 / 10-40 operations incl. simplification and failing calls); after every operation every pool expression is compared with its initial snapshot (wire form with object identities, repr, str, value at a reference point, hash) and with a freshly built copy (== and !=), every expression returned so far with its snapshot, every persistent Partial with a fresh one; plus the copy-on-write list helpers at all indices -5..5 and Point's dictionary; non-trivial = at least 3 operations; distinct by (pool, ops); plus kept derivative objects probed at the caller's kept Point objects against freshly built ones, snapshots of every LocatedDifferential handed out, long-lived objects, the Point passed to each operation, and eleven operations that fail with RecursionError on four 600-deep chains under the default recursion limit (the operands must be unchanged afterwards)",
         trusted=common.TRUSTED,
         assumptions=["in-place mutation and aliasing are Python-level phenomena: the frame theorem of the model carries the logic (operations are functions of the tree and touch only memo fields), the snapshot oracle on the implementation is the decisive part"],
     )
